@@ -441,15 +441,29 @@ where
     LM: MatchLiteral,
     <T as FromStr>::Err: Debug,
 {
+    // see `prioritized_indices_flat`
+    let regrouping_is_invisible = |bin_op_idx: usize| {
+        let op = &bin_ops[bin_op_idx];
+        match bin_ops[..bin_op_idx]
+            .iter()
+            .rev()
+            .find(|left| left.op.prio <= op.op.prio)
+        {
+            None => true,
+            Some(left) => left.op.prio < op.op.prio || left.idx == op.idx,
+        }
+    };
     let prio_increase =
         |bin_op_node_idx: usize| match (&nodes[bin_op_node_idx], &nodes[bin_op_node_idx + 1]) {
-            (DeepNode::Num(_), DeepNode::Num(_)) if bin_ops[bin_op_node_idx].op.is_commutative => {
+            (DeepNode::Num(_), DeepNode::Num(_))
+                if bin_ops[bin_op_node_idx].op.is_commutative
+                    && regrouping_is_invisible(bin_op_node_idx) =>
+            {
                 let prio_inc = 5;
                 &bin_ops[bin_op_node_idx].op.prio * 10 + prio_inc
             }
             _ => &bin_ops[bin_op_node_idx].op.prio * 10,
         };
-
     let mut indices: ExprIdxVec = (0..bin_ops.len()).collect();
     indices.sort_by(|i1, i2| {
         let prio_i1 = prio_increase(*i1);
